@@ -89,6 +89,11 @@ CHECKS = {
    text="handler_iff (for every mechanism combination other than OpenID alone and every request: the tunnel handler is reached iff the first Authorization value parses as credentials of an enabled scheme that some value routes to and the backend confirms, and the tunnel's user is the confirmed one), no_header_401 and challenges_distinct (one challenge per enabled scheme), never_handler_otherwise, openid_only_open (Props/C05.lean). Tie: the real executable is started for each of the 11 startable subsets (TLS where the configuration demands it, fake IdP, fake gRPC authentication service that wraps the real NTLM verifier, generated keytab/krb5.conf) and sent a battery of Authorization headers (absent, empty, bare/truncated/wrong-case schemes, disabled schemes, several headers, wrong and right credentials) plus NTLM exchanges in order / with wrong passwords / across connections; status, WWW-Authenticate schemes and 101 upgrades are compared with Http.route; the confirmed user name is checked through a {{ preferred_username }} host entry.",
    design="6/C05",
    note="Kerberos positive path is not exercised (no KDC offline); PAM is not exercised (cmd/auth cannot be built: no PAM headers) — the fake service confirms a scripted table for Basic. gorilla/mux, net/http, gRPC and SPNEGO are trusted libraries whose routing semantics the model states (HeadersRegexp = unanchored substring on any value; handlers parse the first value)."),
+ "C18": dict(
+   technique="Lean 4 theorems about the startup decision procedure (one per refusal clause, key substitution, distinct fresh keys) + differential correspondence against the real binary started from generated files / RDPGW_ environments, and cross-instance acceptance tests",
+   text="refuses_openid_without_tokenauth, refuses_basic_without_tls, refuses_ntlm_and_kerberos, refuses_kerberos_without_keytab, refuses_signed_without_query_key, refuses_no_hosts, keys_effective (a running gateway's five keys are 32 characters and are the configured ones iff those were exactly 32 long), fresh_keys_differ, configured_keys_kept, defaults_consistent (regenerated defaults map) in Props/C18.lean. Tie: the real executable is started for generated combinations of mechanisms × TLS × host selection × key presence/length (absent, 0, 1, 31, 32, 33) × host-list size × keytab, given by file, environment or both; running-vs-refused is compared with Config.startup; two instances started from one configuration exchange a session cookie and a PAA token (full fake-IdP login) to show that substituted keys are per instance and configured keys are shared.",
+   design="6/C18",
+   note="Settles candidate D23: a UserTokenSigningKey / QueryTokenSigningKey shorter than 32 bytes is not substituted but go-jose refuses to sign or verify with it, so the gateway fails closed (500 on download) rather than running with a short key; not a finding. Failures of external dependencies at startup (IdP discovery, keytab parsing) are outside the model."),
 }
 
 def entry(pid, c):
